@@ -560,6 +560,25 @@ func (p *Packer) Unpack(r io.Reader, dst string) error {
 					}
 				}
 			}
+			if ok && !filepath.IsAbs(header.Linkname) {
+				// A relative target that rises above the destination on its
+				// way and comes back in by the destination's own name
+				// ("../dst/x") is inside only as text: where the destination
+				// is a symlink, or lies behind one, that name is another
+				// place. Like every target that climbs out it needs the
+				// allow list.
+				if rel, rerr := filepath.Rel(dst, info.Path); rerr == nil && climbsAbove(filepath.Dir(rel), header.Linkname) {
+					absDst, aerr := filepath.Abs(dst)
+					if aerr != nil || !p.symlinkTargetAllowed(absDst, filepath.Join(absDst, filepath.Dir(rel), header.Linkname)) {
+						ok, err = false, &IllegalSlugError{
+							Err: fmt.Errorf(
+								"invalid symlink (%q -> %q) has external target",
+								header.Name, header.Linkname,
+							),
+						}
+					}
+				}
+			}
 			if ok {
 				// Create the symlink.
 				if err = os.Symlink(header.Linkname, info.Path); err != nil {
